@@ -37,7 +37,7 @@ theorem mem_forestGroups {f : Forest} (hf : f.WF) (k : List Nat) (ps : List Phra
   induction f generalizing k ps with
   | nil => simp [forestGroups, Forest.child]
   | cons t l sub next ihs ihn =>
-    obtain ⟨_, _, h3, _, _, h6, h7⟩ := hf
+    obtain ⟨_, _, _, h3, _, _, h6, h7⟩ := hf
     simp only [forestGroups, List.mem_append, List.mem_map, Forest.child]
     constructor
     · rintro (⟨g, hg, heq⟩ | h)
@@ -122,7 +122,7 @@ theorem forestGroups_keys_nodup {f : Forest} (hf : f.WF) : ((forestGroups f).map
   induction f with
   | nil => simp [forestGroups]
   | cons t l sub next ihs ihn =>
-    obtain ⟨_, _, h3, _, _, h6, h7⟩ := hf
+    obtain ⟨_, _, _, h3, _, _, h6, h7⟩ := hf
     rw [forestGroups, List.map_append, List.map_map]
     have h2 : List.map ((fun x : Group => x.1) ∘ fun g : Group => (t :: g.1, g.2)) (leafGroup l ++ forestGroups sub) =
         List.map (fun r => t :: r) ((leafGroup l ++ forestGroups sub).map (·.1)) := by
@@ -247,7 +247,7 @@ def FramesInv (stack : List (List Item)) : Prop := ∀ F ∈ stack, ∀ X ∈ F,
 theorem WF_node_inv {it : Item} (h : it.WF) (hs : it.syl ≠ 0) : NodeInv it := by
   cases it with
   | leaf ps => exact absurd rfl hs
-  | node s l sub => exact ⟨s, l, sub, rfl, h.2.2.1, h.2.2.2.2, h.kids_ne_nil⟩
+  | node s l sub => exact ⟨s, l, sub, rfl, h.2.2.2.1, h.2.2.2.2.2, h.kids_ne_nil⟩
 
 theorem sorted_kids_inv {sub : Forest} (hw : sub.WF) : ∀ X ∈ sortBy sylLt sub.toItems, X.WF ∧ X.syl ≠ 0 := by
   intro X hX
